@@ -1,4 +1,278 @@
+//! Redirect chains: C13 (credentials / stale framing), C14 (target resolution), C15 (method table).
 use super::Ctx;
-pub fn c13(_cx: &mut Ctx) {}
-pub fn c14(_cx: &mut Ctx) {}
-pub fn c15(_cx: &mut Ctx) {}
+use crate::exec::hx;
+use crate::rng::Rng;
+
+const BASES: [&str; 10] = ["http://a.test/", "http://a.test/dir/sub/page?x=1", "https://a.test/start/index.html", "http://a.test:8080/p/q", "https://b.test:443/d/", "http://A.test:80/Up/Case", "http://b.test", "https://a.test:8443/x/y/z?k=v", "http://a.test/a/b/c/d;p?q", "http://b.test/only?"];
+
+const LOCS_IN_CLASS: [&str; 40] = [
+    "/next", "/a/b/../c/./d", "http://b.test/other?x=1", "https://a.test/s", "https://a.test:443/t", "http://a.test:80/u", "//b.test/landing/page?q=1",
+    "//A.TEST:8080/w", "../up", "../../two/up", "./same", "x/y", "g", "g/", "?only=query", "", "#frag", "/p#frag", "../x#f", "http://a.test", "https://b.test:8443/p?x#y",
+    "..", ".", "./", "../", "g?y", "g?y#s", ";x", "g;x", "/./g", "/../g", "g.", ".g", "g..", "..g", "./../g", "g/./h", "g/../h", "http://b.test:8080/?a=b", "https://a.test/%7Euser/",
+];
+
+const LOCS_OTHER: [&str; 14] = ["http://", "http://a.test:99999/", "/a b", "\\x", "http:///g", "/%2e%2e/x", "ftp://a.test/f", "mailto:x@y", "http:g", "http://user@a.test/", "http://[::1]/", "http://a.test:/", "  /padded  ", "http://9999/"];
+
+pub struct Hop {
+    pub status: u16,
+    pub locations: Vec<Vec<u8>>,
+    pub body: bool,
+}
+
+fn gen_hop(r: &mut Rng, focus: u8) -> Hop {
+    let status = match focus {
+        15 => r.range(300, 399) as u16,
+        _ => *r.pick(&[301u16, 302, 303, 307, 308, 300, 305, 399, 301, 302]),
+    };
+    let mut locations = vec![];
+    let n = match r.below(8) { 0 => 0, 1 | 2 => 2, _ => 1 };
+    for _ in 0..n {
+        let l: Vec<u8> = match r.below(12) {
+            0 => LOCS_OTHER[r.below(LOCS_OTHER.len())].as_bytes().to_vec(),
+            1 => if r.chance(1, 2) { b"/caf\xe9".to_vec() } else { b"/x\x80y".to_vec() },
+            _ => LOCS_IN_CLASS[r.below(LOCS_IN_CLASS.len())].as_bytes().to_vec(),
+        };
+        locations.push(l);
+    }
+    Hop { status, locations, body: r.chance(1, 3) }
+}
+
+fn hop_head(h: &Hop) -> Vec<u8> {
+    let mut s = format!("HTTP/1.1 {} R\r\n", h.status).into_bytes();
+    for (i, l) in h.locations.iter().enumerate() {
+        s.extend_from_slice(if i % 2 == 0 { b"Location: " } else { b"location: " });
+        s.extend_from_slice(l);
+        s.extend_from_slice(b"\r\n");
+        if i == 0 { s.extend_from_slice(b"X-Between: 1\r\n"); }
+    }
+    if h.body { s.extend_from_slice(b"Content-Length: 4\r\n\r\nbody"); } else { s.extend_from_slice(b"Content-Length: 0\r\n\r\n"); }
+    s
+}
+
+/// drive the flow (in prepare) through one exchange: head on the wire, body if any, the redirect response
+/// (with body when it has one) into the redirect state. Returns false when it does not get there.
+fn exchange_to_redirect(cx: &mut Ctx, h: &Hop) -> bool {
+    cx.op("uri?");
+    cx.op("method?");
+    cx.op("proceed");
+    cx.op("write 65536");
+    let res = cx.op("proceed");
+    if res.starts_with("state await100") { cx.op("proceed"); }
+    if cx.rec.state() == "sendBody" {
+        if cx.op("chunked?") == "bool true" { cx.op("bwrite 6162 100"); cx.op("bwrite - 100"); } else {
+            for n in [5usize, 0] { if cx.op("canproceed") == "bool true" { break; } cx.op(&format!("direct {}", n)); }
+        }
+        cx.op("proceed");
+    }
+    if cx.rec.state() != "recvResponse" { return false; }
+    let head = hop_head(h);
+    let res = cx.op(&format!("resp {}", hx(&head)));
+    let p: Vec<&str> = res.split(' ').collect();
+    if p[0] != "resp" { return false; }
+    let used: usize = p[1].parse().unwrap();
+    cx.op("proceed");
+    if cx.rec.state() == "recvBody" {
+        cx.op(&format!("bread {} 100", hx(&head[used..])));
+        cx.op("proceed");
+    }
+    if cx.rec.state() != "redirect" { return false; }
+    cx.op("status");
+    true
+}
+
+fn chain(cx: &mut Ctx, r: &mut Rng, focus: u8) {
+    let base = *r.pick(&BASES);
+    let method = match focus {
+        15 => *r.pick(&super::flowgen::METHODS),
+        _ => *r.pick(&["GET", "GET", "HEAD", "POST", "PUT", "DELETE", "OPTIONS"]),
+    };
+    let mut hs: Vec<(&str, &[u8])> = vec![("x-keep", b"1")];
+    if r.chance(3, 4) { hs.push(("authorization", b"Basic c2VjcmV0")); }
+    if r.chance(3, 4) { hs.push(("cookie", b"sid=abc")); }
+    if matches!(method, "POST" | "PUT" | "PATCH") && r.chance(1, 2) { hs.push(("content-length", b"5")); }
+    if r.chance(1, 6) { hs.push(("host", b"explicit.test")); }
+    if r.chance(1, 8) { hs.push(("expect", b"100-continue")); }
+    if r.chance(1, 3) { hs.push(("cookie", b"second=1")); }
+    if cx.rec.new_flow(&format!("{} HTTP/1.1 {} {}", method, base, super::hdrs(&hs))) != "ok" { return; }
+    let hops = r.range(1, 4);
+    for _ in 0..hops {
+        let h = gen_hop(r, focus);
+        if !exchange_to_redirect(cx, &h) { return; }
+        cx.op("close?");
+        let policy = *r.pick(&["never", "samehost"]);
+        let res = cx.op(&format!("follow {}", policy));
+        if !res.starts_with("flow ") { return; }
+    }
+    // the last flow: look at it and at its head on the wire
+    cx.op("uri?");
+    cx.op("method?");
+    cx.op("proceed");
+    cx.op("write 65536");
+}
+
+fn chains(cx: &mut Ctx, focus: u8, n: usize) {
+    for _ in 0..n {
+        let mut r = cx.case("chain");
+        chain(cx, &mut r, focus);
+    }
+}
+
+pub fn c13(cx: &mut Ctx) {
+    // leave-and-return chains over hosts and schemes, both policies (exhaustive over a small menu)
+    let origs = ["http://a.test/o", "https://a.test/o", "http://a.test:8080/o", "http://A.test/o"];
+    let targets = ["http://a.test/t", "https://a.test/t", "http://b.test/t", "https://b.test/t", "http://a.test:8080/t", "//a.test/t2", "/same-origin", "../rel", "//b.test/x", "http://A.TEST/t"];
+    for o in origs {
+        for t1 in targets {
+            for t2 in ["", "/second", "http://a.test/back", "https://a.test/back", "http://b.test/stay"] {
+                for policy in ["never", "samehost"] {
+                    for st in [302u16, 307] {
+                        cx.case("auth");
+                        if cx.rec.new_flow(&format!("GET HTTP/1.1 {} {}", o, super::hdrs(&[("authorization", b"Basic c2VjcmV0"), ("cookie", b"sid=abc"), ("x-keep", b"1")]))) != "ok" { continue; }
+                        let mut ok = true;
+                        for t in [t1, t2] {
+                            if t.is_empty() { continue; }
+                            let h = Hop { status: st, locations: vec![t.as_bytes().to_vec()], body: false };
+                            if !exchange_to_redirect(cx, &h) { ok = false; break; }
+                            if !cx.op(&format!("follow {}", policy)).starts_with("flow ") { ok = false; break; }
+                        }
+                        if !ok { continue; }
+                        cx.op("uri?");
+                        cx.op("proceed");
+                        cx.op("write 65536");
+                    }
+                }
+            }
+        }
+    }
+    // stale framing: body methods with Content-Length redirected to GET, incl. the Expect-refused path
+    for m in ["POST", "PUT", "PATCH"] {
+        for st in [301u16, 302, 303] {
+            for expect in [false, true] {
+                cx.case("stale");
+                let mut hs: Vec<(&str, &[u8])> = vec![("content-length", b"5"), ("cookie", b"a=b")];
+                if expect { hs.push(("expect", b"100-continue")); }
+                if cx.rec.new_flow(&format!("{} HTTP/1.1 http://a.test/up {}", m, super::hdrs(&hs))) != "ok" { continue; }
+                cx.op("proceed"); cx.op("write 65536"); cx.op("proceed");
+                let head = format!("HTTP/1.1 {} R\r\nLocation: /done\r\nContent-Length: 0\r\n\r\n", st);
+                if cx.rec.state() == "await100" {
+                    cx.op(&format!("read100 {}", hx(head.as_bytes())));
+                    cx.op("proceed");
+                }
+                if cx.rec.state() == "sendBody" { cx.op("bwrite 6162636465 100"); cx.op("proceed"); }
+                cx.op(&format!("resp {}", hx(head.as_bytes())));
+                cx.op("proceed");
+                if cx.rec.state() != "redirect" { continue; }
+                if !cx.op("follow never").starts_with("flow ") { continue; }
+                cx.op("method?");
+                cx.op("proceed");
+                cx.op("write 65536");
+                cx.op("canproceed");
+            }
+        }
+    }
+    let n = if cx.thorough { 8000 } else { 800 };
+    chains(cx, 13, n);
+}
+
+pub fn c14(cx: &mut Ctx) {
+    // the reference-resolution examples of RFC 3986 section 5.4 against its base URI
+    let rfc: [&str; 40] = ["g", "./g", "g/", "/g", "//g", "?y", "g?y", "#s", "g#s", "g?y#s", ";x", "g;x", "g;x?y#s", "", ".", "./", "..", "../", "../g", "../..", "../../", "../../g",
+        "../../../g", "../../../../g", "/./g", "/../g", "g.", ".g", "g..", "..g", "./../g", "./g/.", "g/./h", "g/../h", "g;x=1/./y", "g;x=1/../y", "g?y/./x", "g?y/../x", "g#s/./x", "g#s/../x"];
+    for l in rfc {
+        cx.case("rfc54");
+        if cx.rec.new_flow("GET HTTP/1.1 http://a/b/c/d;p?q 0") != "ok" { continue; }
+        let h = Hop { status: 302, locations: vec![l.as_bytes().to_vec()], body: false };
+        if !exchange_to_redirect(cx, &h) { continue; }
+        if cx.op("follow never").starts_with("flow ") { cx.op("uri?"); cx.op("proceed"); cx.op("write 65536"); }
+    }
+    // every base x every in-class location, one hop and a second relative hop (resolution against the
+    // CURRENT uri, not the original)
+    for (bi, base) in BASES.iter().enumerate() {
+        for (li, l) in LOCS_IN_CLASS.iter().enumerate() {
+            if !cx.thorough && (bi * 7 + li) % 3 != 0 { continue; }
+            cx.case("grid");
+            if cx.rec.new_flow(&format!("GET HTTP/1.1 {} 0", base)) != "ok" { continue; }
+            let h = Hop { status: 301, locations: vec![l.as_bytes().to_vec()], body: false };
+            if !exchange_to_redirect(cx, &h) { continue; }
+            if !cx.op("follow never").starts_with("flow ") { continue; }
+            let l2 = LOCS_IN_CLASS[(li * 5 + bi) % LOCS_IN_CLASS.len()];
+            let h2 = Hop { status: 302, locations: vec![b"/ignored/first".to_vec(), l2.as_bytes().to_vec()], body: li % 2 == 0 };
+            if !exchange_to_redirect(cx, &h2) { continue; }
+            if cx.op("follow samehost").starts_with("flow ") { cx.op("uri?"); cx.op("proceed"); cx.op("write 65536"); }
+        }
+    }
+    // malformed / out-of-class / missing / non-textual values
+    for l in LOCS_OTHER {
+        for base in ["http://a.test/x/y", "https://b.test:8443/"] {
+            cx.case("other");
+            if cx.rec.new_flow(&format!("GET HTTP/1.1 {} 0", base)) != "ok" { continue; }
+            let h = Hop { status: 302, locations: vec![l.as_bytes().to_vec()], body: false };
+            if !exchange_to_redirect(cx, &h) { continue; }
+            if cx.op("follow never").starts_with("flow ") { cx.op("uri?"); cx.op("proceed"); cx.op("write 65536"); }
+        }
+    }
+    for locs in [vec![], vec![b"/caf\xe9".to_vec()], vec![b"/ok".to_vec(), b"\xff".to_vec()]] {
+        cx.case("bad");
+        if cx.rec.new_flow("GET HTTP/1.1 http://a.test/ 0") != "ok" { continue; }
+        let h = Hop { status: 302, locations: locs, body: false };
+        if !exchange_to_redirect(cx, &h) { continue; }
+        cx.op("follow never");
+        cx.op("follow samehost");
+    }
+    let n = if cx.thorough { 8000 } else { 800 };
+    chains(cx, 14, n);
+}
+
+pub fn c15(cx: &mut Ctx) {
+    // exhaustive: 9 methods x 300..=399 x both policies x with/without response body
+    for m in super::flowgen::METHODS {
+        for status in 300u16..=399 {
+            for (pi, policy) in ["never", "samehost"].iter().enumerate() {
+                for body in [false, true] {
+                    if !cx.thorough && !matches!(status, 300..=308 | 399 | 350) && (status as usize + pi) % 4 != 0 { continue; }
+                    cx.case("tbl");
+                    let needs_body = matches!(m, "POST" | "PUT" | "PATCH");
+                    let hs: Vec<(&str, &[u8])> = if needs_body { vec![("content-length", b"5")] } else { vec![] };
+                    if cx.rec.new_flow(&format!("{} HTTP/1.1 http://a.test/p {}", m, super::hdrs(&hs))) != "ok" { continue; }
+                    let h = Hop { status, locations: vec![b"/next".to_vec()], body };
+                    if !exchange_to_redirect(cx, &h) {
+                        // 304 and non-redirects end in cleanup
+                        cx.op("close?");
+                        continue;
+                    }
+                    if cx.op(&format!("follow {}", policy)).starts_with("flow ") {
+                        cx.op("method?");
+                    }
+                }
+            }
+        }
+    }
+    // the decision must follow the method, not flags that went stale on the way (Expect refused, despite)
+    for m in ["POST", "PUT", "GET", "OPTIONS"] {
+        for st in [307u16, 308, 302] {
+            for variant in 0..2 {
+                cx.case("stale");
+                let needs_body = matches!(m, "POST" | "PUT");
+                let mut hs: Vec<(&str, &[u8])> = vec![];
+                if needs_body { hs.push(("content-length", b"5")); }
+                if needs_body && variant == 1 { hs.push(("expect", b"100-continue")); }
+                if cx.rec.new_flow(&format!("{} HTTP/1.1 http://a.test/p {}", m, super::hdrs(&hs))) != "ok" { continue; }
+                if !needs_body && variant == 1 { cx.op("despite"); }
+                cx.op("proceed"); cx.op("write 65536"); cx.op("proceed");
+                let head = format!("HTTP/1.1 {} R\r\nLocation: /n\r\nContent-Length: 0\r\n\r\n", st);
+                if cx.rec.state() == "await100" { cx.op(&format!("read100 {}", hx(head.as_bytes()))); cx.op("proceed"); }
+                if cx.rec.state() == "sendBody" {
+                    if cx.op("chunked?") == "bool true" { cx.op("bwrite - 100"); } else { cx.op("bwrite 6162636465 100"); }
+                    cx.op("proceed");
+                }
+                cx.op(&format!("resp {}", hx(head.as_bytes())));
+                cx.op("proceed");
+                if cx.rec.state() != "redirect" { continue; }
+                cx.op("status");
+                if cx.op("follow never").starts_with("flow ") { cx.op("method?"); }
+            }
+        }
+    }
+    let n = if cx.thorough { 4000 } else { 400 };
+    chains(cx, 15, n);
+}
